@@ -361,6 +361,12 @@ def run_cases(cases, workdir, parallel=8, timeout=60, hang_timeout=8):
     a time), kills the child's whole process group afterwards, returns {id: {'exit', 'timeout', 'events', 'dir'}}."""
     import signal
     import time
+    hang = [c for c in cases if c.get('expect_hang')]
+    if hang and len(hang) < len(cases):
+        # cases expected to end in a hung parent only wait for their timeout: run them in a wider batch of their own
+        results = run_cases([c for c in cases if not c.get('expect_hang')], workdir, parallel, timeout, hang_timeout)
+        results.update(run_cases(hang, workdir, parallel * 3, timeout, hang_timeout))
+        return results
     pending = list(cases)
     running = {}
     results = {}
